@@ -5,6 +5,7 @@ from __future__ import annotations
 import symtable
 
 from .common import *  # noqa: F403
+from ..loader import ancestors
 from ..astutil import assignments_to, iter_stmts
 
 HOOKS = "hooks.py"
@@ -102,6 +103,30 @@ def r1_cell(chk: Check) -> None:
                 chk.undecided("C19.R1", f, construct, f"bound to `{tgt}`, not to the cell `{cell}`", f.loc(c))
         else:
             chk.undecided("C19.R1", f, construct, "result used in an unrecognised way", f.loc(c))
+
+    # (c5) pending filters are never dropped: when the cell is rebound INSIDE a registration closure, the FilterSet it
+    #      held was either handed to a hook on the way (`<hook>.filter_set = cell`), or is passed on to the new target
+    #      (`init_filter_set(decorator, cell)`), or the rebind sits on the rejection path (handler that re-raises).
+    #      Otherwise filters given before this step vanish: `hook.apply_to(...)("map_query")(f)` registers f unfiltered.
+    for f, c in init_calls:
+        if f is outer:
+            continue
+        s = stmt_of(c)
+        if not (isinstance(s, ast.Assign) and len(s.targets) == 1 and isinstance(s.targets[0], ast.Name) and s.targets[0].id == cell):
+            continue
+        g = cfg_of(f)
+        here = g.nodes_of(s)
+        consumed = [nid for n_ in walk_body(f.node) if isinstance(n_, ast.Assign) and any(isinstance(t, ast.Attribute) and t.attr == "filter_set" for t in n_.targets) and isinstance(n_.value, ast.Name) and n_.value.id == cell for nid in g.nodes_of(n_)]
+        passes_on = any(isinstance(a, ast.Name) and a.id == cell for a in c.args[1:]) or any(isinstance(k.value, ast.Name) and k.value.id == cell for k in c.keywords)
+        in_reject = any(isinstance(a, ast.ExceptHandler) and any(isinstance(x, ast.Raise) for x in walk_body(a)) for a in ancestors(s))
+        construct = f"{f.name}: pending filters survive `{norm(s)[:48]}`"
+        w = g.path([g.entry], here, avoid=consumed, edge_ok=lambda a, b, lbl: not lbl.startswith("exc:")) if here else None
+        if passes_on or in_reject or w is None:
+            chk.ok("C19.R1", f, construct, "passed on to the new target" if passes_on else ("rejection path" if in_reject else "already handed to the hook on every path"), f.loc(c))
+        else:
+            chk.violation("C19.R1", f, construct,
+                          f"`{cell}` is replaced by a fresh FilterSet although the one it held was not stored on any hook on this path: filters given BEFORE this step are dropped - `hook.apply_to(method=\"PUT\")(\"map_query\")(f)` registers f without its filter, so it is applied to every operation (the mirror spelling `hook(\"map_query\").apply_to(...)` works)",
+                          f.loc(c), g.describe_path(w, mod.relpath))
 
     # (c) after a registration site the cell is rebound on every path to a normal exit
     for f, site in reg_sites:
@@ -254,7 +279,9 @@ def r1_cell(chk: Check) -> None:
         )
     else:
         vals = local_value(init, fs)
-        fresh = len(vals) == 1 and isinstance(vals[0], ast.Call) and dotted(vals[0].func) == "FilterSet" and not vals[0].args
+        # a fresh FilterSet(), or - for the continuation of ONE registration - the set handed in by the caller
+        ps = params_of(init.node)
+        fresh = bool(vals) and all((isinstance(v, ast.Call) and dotted(v.func) == "FilterSet" and not v.args) or (isinstance(v, ast.Name) and v.id in ps[1:]) for v in vals) and any(isinstance(v, ast.Call) for v in vals)
         chk.decide(True if fresh else None, "C19.R1", init, f"return {fs}", "returned value is not a fresh FilterSet()", init.loc())
     for c in body_calls(init):
         if last_attr(c) != "attach_filter_chain" or len(c.args) < 3:
